@@ -792,6 +792,67 @@ def rule_adjust_limit(rep, repo):
                 instance=cfg)
 
 
+def rule_reference_cache(rep, repo):
+  """R9: ForgivingFactorBits.get_reference caches the reference in the
+  attribute that ForgivingFactor.delta() reads.  With a symbolic stress
+  factor and model size: the value handed to the caller, the value returned
+  by a second (cached) call and the attribute delta() compares against are
+  all stress x size; get_trial stores the un-stressed trial size that
+  delta() reads."""
+  fb = repo.module(FBM)
+  ci = fb.classes.get("ForgivingFactorBits")
+  if ci is None or "get_reference" not in ci.methods:
+    raise AnalysisError("anchor-missing ForgivingFactorBits.get_reference")
+  unit = "%s::ForgivingFactorBits.get_reference" % fb.relpath
+  rep.unit(unit)
+  loc = fb.loc(ci.methods["get_reference"])
+  fw = Fwd()
+  o = Obj(ci)
+  o.attrs["stress"] = Tensor(("sym", "stress"), ())
+  sizes = {"ref": Tensor(("sym", "Sref"), ()),
+           "trial": Tensor(("sym", "Strial"), ())}
+  o.attrs["compute_model_size"] = lambda pe, a, k: (
+      sizes[a[0]], Tensor(("sym", "P_" + a[0]), ()),
+      Tensor(("sym", "A_" + a[0]), ()), {"which": a[0]})
+  pe = PE(repo)
+  try:
+    r1 = pe.call(pe.getattr(o, "get_reference"), ["ref"], {})
+    attr1 = o.attrs.get("reference_size")
+    r2 = pe.call(pe.getattr(o, "get_reference"), ["trial"], {})
+    t1 = pe.call(pe.getattr(o, "get_trial"), ["trial"], {})
+  except PyRaise as e:
+    rep.fail("R9", unit, "reference-raises", "raises %s" % e, loc=loc)
+    return
+  want = NF.sym("stress") * NF.sym("Sref")
+
+  def nf(v):
+    return fw(pe.as_term(v)) if v is not None else None
+  rep.check(nf(r1) == want, "R9", unit, "reference-not-stressed-size",
+            "get_reference returns %s, documented stress x model size" %
+            show(nf(r1)), loc=loc, observed=show(nf(r1)))
+  rep.check(nf(attr1) == want, "R9", unit,
+            "cached-reference-differs-from-returned-one",
+            "get_reference returns %s but stores %s in reference_size, "
+            "which delta() compares the trial with" % (
+                show(nf(r1)), show(nf(attr1)) if attr1 is not None else
+                None), loc=loc, observed=str(attr1 is not None and show(
+                    nf(attr1))))
+  rep.check(nf(r2) == want, "R9", unit, "second-call-differs",
+            "a second get_reference (another model) returns %s; the "
+            "reference is computed once: %s" % (show(nf(r2)), show(want)),
+            loc=loc)
+  rep.check(nf(t1) == NF.sym("Strial") and nf(o.attrs.get("trial_size"))
+            == NF.sym("Strial"), "R9", unit, "trial-size",
+            "get_trial returns %s and stores %s" % (
+                show(nf(t1)), o.attrs.get("trial_size")), loc=loc)
+  rep.check(o.attrs.get("reference_size_dict") == {"which": "ref"} and
+            nf(o.attrs.get("ref_p")) == NF.sym("P_ref") and
+            nf(o.attrs.get("ref_a")) == NF.sym("A_ref"), "R9", unit,
+            "reference-statistics",
+            "reference statistics after two calls: %r" % (
+                o.attrs.get("reference_size_dict"),), loc=loc)
+
+
 def rule_scheduler_limit(rep, repo):
   """R8: AutoQKerasScheduler.get_limit builds the limit dictionary of the
   hyper-model that searches one block.  Interpreted on synthetic blocks: a
@@ -866,6 +927,8 @@ def run(rep, repo, tier):
   rule_act_size(rep, repo)
   rule_scheduler_limit(rep, repo)
   rep.require_instances("R8", 10)
+  rule_reference_cache(rep, repo)
+  rep.require_instances("R9", 5)
   rep.require_instances("R1", 8)
   rep.require_instances("R2", 18)
   rep.require_instances("R3", 4)
